@@ -121,7 +121,13 @@ func genCase(t *rapid.T, env *stdrun.Env) Case {
 		c.Plan.DstMode = 2
 		c.Plan.DstStep = uint32(rapid.SampledFrom([]int{512, 1024, 4096, 8192, 16384, 32768, 4095, 16385}).Draw(t, "ringstep"))
 	}
-	if c.Plan.Trivial() {
+	if k.Pkg() == "netpbm" && strings.Contains(desc, "+") {
+		// known finding S4: corrupted netpbm files are not split (a truncated pixel stream decodes "ok" in small pieces)
+		ev.Excluded("S4-netpbm-corrupted-input-not-split")
+		c.Plan.SrcMode, c.Plan.SrcChunk, c.Plan.SrcList, c.Plan.LateClose = 0, 0, nil, false
+		c.Plan.DstMode, c.Plan.DstStep = 0, 0
+	}
+	if c.Plan.Trivial() && !(k.Pkg() == "netpbm" && strings.Contains(desc, "+")) {
 		c.Plan.SrcMode, c.Plan.SrcChunk = 1, 1
 		if len(payload) > 3000 {
 			c.Plan.SrcChunk = uint32(len(payload) / 1500)
